@@ -121,6 +121,16 @@ def m_bytes_from(it, S, t, callee, args):
     return it.with_len(R, ln)
 
 
+@model("bytes::bytes::Bytes::copy_from_slice")
+def m_bytes_copy_from_slice(it, S, t, callee, args):
+    # a Bytes holding a copy of the slice (bytes docs): same content, same length
+    ln = it.len_of_ref(S, args[0], it.op_type(t["args"][0]))
+    inner = ("model", "to_vec", it.deref_value(S, args[0], 1, it.op_type(t["args"][0])), ("site", it.site()))
+    R = ("model", "into_bytes", inner)
+    set_ty(R, tykey(Place(t["dest"]).ty))
+    return it.with_len(R, ln)
+
+
 def set_len(it, S, loc, newlen):
     S.write((loc[0], loc[1] + (("len",),)), newlen)
 
